@@ -226,7 +226,11 @@ impl Expression {
                     TypeLayer::Vector(st, _) => module.type_registry.combine_modifier(st, modifer),
                     TypeLayer::Matrix(st, _, y) => {
                         let ty = module.type_registry.register_type(TypeLayer::Vector(st, y));
-                        module.type_registry.combine_modifier(ty, modifer)
+                        // The matrix orientation does not apply to a row of the matrix
+                        let mut vector_modifier = modifer;
+                        vector_modifier.row_major = false;
+                        vector_modifier.column_major = false;
+                        module.type_registry.combine_modifier(ty, vector_modifier)
                     }
                     TypeLayer::Object(ObjectType::Buffer(ty))
                     | TypeLayer::Object(ObjectType::StructuredBuffer(ty))
